@@ -270,13 +270,14 @@ def call(I, name, args, e):
             # input changes the length and is refused by the length assertion).
             s = a0.seq
             nm = s.name or I.fresh_name('str')
-            return SeqV('char', [('sym', ('a', nm + '.chars'))], name=nm + '.chars')
+            sym.SEL_RANGE[('a', nm)] = (0, 255)
+            return SeqV('char', [('sym', ('a', nm))], name=nm)
     if n == 'core::iter::Iterator::nth' or n.endswith('as core::iter::Iterator>::nth'):
         if isinstance(a0, IterV) and a0.kind == 'chars' and is_term(args[1]):
             s = a0.seq
             nm = s.name or 'str'
             pos_ = getattr(a0, 'pos', ZERO)
-            t = ('sel', ('a', nm + '.chars'), add(pos_, args[1])); sym.SEL_RANGE[('a', nm + '.chars')] = (0, 0x10ffff)
+            t = ('sel', ('a', nm), add(pos_, args[1])); sym.SEL_RANGE[('a', nm)] = (0, 255)
             a0.pos = add(add(pos_, args[1]), ONE)
             return opt_some(t)
         return I.top('nth', e)
@@ -289,7 +290,7 @@ def call(I, name, args, e):
         if isinstance(a0, IterV) and a0.kind == 'chars' and not a0.maps:
             s = a0.seq; nm = s.name or 'str'
             pos_ = getattr(a0, 'pos', ZERO)
-            t = ('sel', ('a', nm + '.chars'), pos_); sym.SEL_RANGE[('a', nm + '.chars')] = (0, 0x10ffff)
+            t = ('sel', ('a', nm), pos_); sym.SEL_RANGE[('a', nm)] = (0, 255)
             a0.pos = add(pos_, ONE)
             return opt_some(t)
         return I.top('next on %r' % (a0,), e)
@@ -731,6 +732,12 @@ def call(I, name, args, e):
             return ev
     if n == 'core::char::methods::<impl char>::to_digit':
         c = a0; radix = args[1]
+        if radix == C(16) and is_term(c):
+            # interpreted: the digit's value under the condition that it is one (ASCII, either case)
+            ev = EnumV('core::option::Option', None, sym=('a', I.fresh_name('to_digit')), ty='core::option::Option<u32>')
+            ev.payload_cache[('Some', '0')] = sym.hexval(c)
+            ev.some_cond = sym.hexcond(c)
+            return ev
         t = ('call', 'to_digit', c, radix); sym.CALL_RANGE[t] = (0, 35)
         ev = EnumV('core::option::Option', None, sym=('a', I.fresh_name('to_digit')), ty='core::option::Option<u32>')
         ev.payload_cache[('Some', '0')] = t
